@@ -16,8 +16,8 @@ def bounds(tier):
 
 def conditions(tier):
     cs = _c.shape_conditions("compile_agrees", "c08", ["feature", "rule1", "rules"])
-    if tier == "thorough":
-        cs += _c.shape_conditions("compile_history", "c08", ["feature", "rule1", "rules"], T=1800)
+    # one Compiler over documents whose AST ids collide but whose tag names differ
+    cs += _c.shape_conditions("compile_history", "c08", ["rules"] if tier == "quick" else ["feature", "rule1", "rules"], T=1800)
     cs += _c.source_level(tier)
     cs.append(Cond(_c.M, "twin_never_pickles", {"ctx": "feature"}, T=120, expect="cex"))
     return cs
